@@ -41,6 +41,88 @@ pub fn cmp_opts(opts: &Opts, judge_known: bool) -> CmpOpts {
     }
 }
 
+/// `try!(e)` -> `((e))?` (parenthesised) or `e?` (naive), on the token level. `None` if a `try!`
+/// uses other delimiters or is unbalanced.
+fn rewrite_try(src: &str, parenthesised: bool) -> Option<String> {
+    let toks = crate::lex::lex(src);
+    let text = |i: usize| toks[i].text(src);
+    let mut out = String::new();
+    // stack of open parentheses: true if it belongs to a `try!`
+    let mut stack: Vec<bool> = vec![];
+    let mut i = 0;
+    while i < toks.len() {
+        let t = text(i);
+        // `try` `!` `(` (whitespace between them is not expected from rustfmt-style sources, but skip it)
+        if t == "try" {
+            let mut j = i + 1;
+            while j < toks.len() && toks[j].kind.is_trivia() {
+                j += 1;
+            }
+            if j < toks.len() && text(j) == "!" {
+                let mut k = j + 1;
+                while k < toks.len() && toks[k].kind.is_trivia() {
+                    k += 1;
+                }
+                if k < toks.len() && text(k) == "(" {
+                    out.push_str(if parenthesised { "((" } else { "" });
+                    stack.push(true);
+                    i = k + 1;
+                    continue;
+                }
+                return None;
+            }
+        }
+        match t {
+            "(" => stack.push(false),
+            ")" => {
+                if stack.pop()? {
+                    out.push_str(if parenthesised { "))?" } else { "?" });
+                    i += 1;
+                    continue;
+                }
+            }
+            _ => {}
+        }
+        out.push_str(t);
+        i += 1;
+    }
+    Some(out)
+}
+
+/// Is there a `#[doc ..]` attribute whose closing bracket is followed by another token on the
+/// same line?
+fn doc_attr_shares_line(src: &str) -> bool {
+    let toks: Vec<_> = crate::lex::lex(src).into_iter().filter(|t| !t.kind.is_trivia() || t.text(src).contains('\n')).collect();
+    let mut i = 0;
+    while i + 2 < toks.len() {
+        if toks[i].text(src) == "#" && toks[i + 1].text(src) == "[" && toks[i + 2].text(src) == "doc" {
+            let mut depth = 0usize;
+            let mut k = i + 1;
+            while k < toks.len() {
+                match toks[k].text(src) {
+                    "[" => depth += 1,
+                    "]" => {
+                        depth -= 1;
+                        if depth == 0 {
+                            break;
+                        }
+                    }
+                    _ => {}
+                }
+                k += 1;
+            }
+            if let Some(next) = toks.get(k + 1) {
+                if !next.kind.is_trivia() {
+                    return true;
+                }
+            }
+            i = k;
+        }
+        i += 1;
+    }
+    false
+}
+
 impl Property for C01 {
     fn id(&self) -> &'static str {
         "C01"
@@ -161,6 +243,27 @@ impl Property for C01 {
                 // the oracle's parser rejects the input as well (rustfmt recovered): not judged
                 return Outcome::skip("oracle-parser-rejects-input");
             }
+            // known class: with normalize_doc_attributes a `#[doc = ".."]` attribute that shares
+            // its line with an item rustfmt cannot lay out becomes a `///` comment that
+            // swallows the item's header
+            if opt(&opts, "normalize_doc_attributes") == Some("true") && doc_attr_shares_line(src) {
+                if !judge_known {
+                    o.excluded.push("known-class:doc-attribute-swallows-item".into());
+                    return o;
+                }
+                return Outcome::fail("output-does-not-parse/doc-attribute-swallows-item", format!("the emitted text does not parse under edition {edition}: {:?}\n{src}\n--->\n{}", diags, o1.text)).nontrivial(true);
+            }
+            // known class: `try!(a != b)` -> `a != b?` can chain comparison operators
+            if opt(&opts, "use_try_shorthand") == Some("true") && src.contains("try!") {
+                let naive_fails = rewrite_try(src, false).map(|n| !parses(&n, &edition)).unwrap_or(false);
+                if naive_fails {
+                    if !judge_known {
+                        o.excluded.push("known-class:try-shorthand-drops-parentheses".into());
+                        return o;
+                    }
+                    return Outcome::fail("output-does-not-parse/try-shorthand-drops-parentheses", format!("the emitted text does not parse under edition {edition}: {:?}\n{src}\n--->\n{}", diags, o1.text)).nontrivial(true);
+                }
+            }
             return fail("output-does-not-parse", format!("the emitted text does not parse under edition {edition}: {:?}", diags), &o);
         }
         // (2) token equivalence
@@ -180,11 +283,60 @@ impl Property for C01 {
                     }
                 }
             }
-            Err(m) => return fail(&format!("tokens:{}", m.class), m.msg, &o),
+            Err(m) => {
+                // general grammar programs: the sequential token comparison is greedy and cannot
+                // always align parentheses that rustfmt adds or removes; there the tree comparison
+                // (3) decides, and a mismatch it cannot confirm is not judged
+                let general = key == "prog" && !case["tags"].as_array().map(|a| a.iter().any(|t| t.as_str() == Some("macro-program"))).unwrap_or(false);
+                if !general {
+                    return fail(&format!("tokens:{}", m.class), m.msg, &o);
+                }
+                let try_conv = co.use_try_shorthand && src.contains("try!");
+                if co.float_literal_trailing_zero || try_conv {
+                    return Outcome::skip("token-comparison-undecided");
+                }
+                match (canon_pretty(src, &edition), canon_pretty(&o1.text, &edition)) {
+                    (Some(pa), Some(pb)) => {
+                        let strict = CmpOpts { strict: true, ..co.clone() };
+                        match compare(&pa, &pb, &strict) {
+                            Ok(_) => {
+                                o.labels.push("tokens-undecided:ast-equal".into());
+                                return o;
+                            }
+                            Err(m2) => return fail(&format!("tokens+ast:{}", m2.class), format!("{}\npretty-printed ASTs differ as well: {}", m.msg, m2.msg), &o),
+                        }
+                    }
+                    _ => return Outcome::skip("token-comparison-undecided"),
+                }
+            }
         }
         // (3) tree shape: parenthesis-free pretty-printed ASTs
         let try_conv = co.use_try_shorthand && src.contains("try!");
-        if co.float_literal_trailing_zero || try_conv {
+        if try_conv && !co.float_literal_trailing_zero {
+            // `try!(e)` means `(e)?`: compare the output's tree with the input after that textual
+            // conversion (the arguments of `try!` are opaque tokens in the input's own AST)
+            if let (Some(conv), Some(naive)) = (rewrite_try(src, true), rewrite_try(src, false)) {
+                if let (Some(pa), Some(pb)) = (canon_pretty(&conv, &edition), canon_pretty(&o1.text, &edition)) {
+                    let strict = CmpOpts { strict: true, use_try_shorthand: false, ..co.clone() };
+                    match compare(&pa, &pb, &strict) {
+                        Ok(_) => o.labels.push("ast-compared:try-conversion".into()),
+                        Err(m) => {
+                            // known class: the conversion drops the parentheses the operand needs
+                            // (`try!(a + b)` -> `a + b?`): the output is the naive conversion
+                            let is_naive = canon_pretty(&naive, &edition).map(|pn| compare(&pn, &pb, &strict).is_ok()).unwrap_or(false);
+                            if is_naive {
+                                if !judge_known {
+                                    o.excluded.push("known-class:try-shorthand-drops-parentheses".into());
+                                    return o;
+                                }
+                                return Outcome::fail("ast:try-shorthand-drops-parentheses", format!("`try!(e)` was converted to `e?` without the parentheses `e` needs: {}\n{src}\n--->\n{}", m.msg, o1.text)).nontrivial(true);
+                            }
+                            return fail(&format!("ast:{}", m.class), format!("pretty-printed ASTs differ (after `try!(e)` -> `(e)?`): {}", m.msg), &o);
+                        }
+                    }
+                }
+            }
+        } else if co.float_literal_trailing_zero || try_conv {
             // pprust spells `1. ..2.` ambiguously and `try!(..)` arguments are opaque tokens
             // in the input's AST: the tree-shape comparison does not apply
             o.excluded.push("ast-compare-not-applicable(float-spelling|try-conversion)".into());
